@@ -247,6 +247,9 @@ def run(ctx):
         meta.append(m)
     for d in groups.values():
         shutil.rmtree(d, ignore_errors=True)
+    # element VALUES beyond small ints (None, falsy values, containers, equal elements), per job, end to end; field names
+    # alternate between the plain set and one whose names are substrings of one another
+    vfail = value_stream(ctx, dist)
     res = coqio.run_cases(ctx.scratch, "c01", IMPORTS, "case_t", cases, {"tie": "tie_ok", "spec": "spec_ok"},
                           extra=EXTRA, shard=400)
     out = Outcome(evaluations=len(meta) + len(pyfail), distinct_nontrivial=nontrivial, rule=RULE,
@@ -254,6 +257,8 @@ def run(ctx):
                   exhaustive=(ctx.tier == "thorough"))
     out.extra["exhaustive_domain"] = ("every splitter tree over <=4 fields (canonical field order) x every length "
                                       "vector in 0..3 at State level" if ctx.tier == "thorough" else "sampled")
+    out.evaluations += dist.get("value_runs", 0)
+    out.failures += vfail[:6]
     for m, note in sorted(pyfail, key=lambda x: len(json.dumps(case_json(x[0]))))[:6]:
         out.failures.append(Failure(case=case_json(m), observed={"obs": m["obs"], **m["details"]},
                                     expected=expected(ctx, m, "spec"), kind="spec", note=note))
@@ -269,6 +274,53 @@ def run(ctx):
                     m["level"], ", after other splitters over the same values were submitted into the same cache root"
                     if m.get("sequence") else "")) if kind == "spec" else "model/impl"))
     return out
+
+
+def value_stream(ctx, dist):
+    """end-to-end runs whose split lists hold arbitrary values; every job must receive exactly the element the reference
+    expansion selects (compared with a type-strict equality), every other field its default. The reference jobs are
+    G.py_expand (the harness' transcription of Spec.State.expand; value delivery is outside the Coq model)."""
+    rng = ctx.rng
+    fails = []
+    dist["value_runs"] = 0
+    dist["value_kinds"] = {}
+    try:
+        for q in range(ctx.budget(30, 300)):
+            G.use_names(q % 2)
+            k = rng.choice([1, 1, 2, 2, 3])
+            t = G.random_tree(rng, k, p_wrap=0.1)
+            sh = G.assign_shapes(rng, t, k, lens=(1, 2, 3, 3), p_consistent=0.95, allow_nd=False)
+            e = G.py_expand(t, sh)
+            if e is None or len(e[0]) > 18:
+                continue
+            values = {f: [rng.choice(G.VALUE_POOL) for _ in range(sh[f][0])] for f in range(k)}
+            for f in values:
+                for v in values[f]:
+                    kn = type(v).__name__ + ("(falsy)" if not v else "")
+                    dist["value_kinds"][kn] = dist["value_kinds"].get(kn, 0) + 1
+            r = G.run_e2e_values(t, values)
+            dist["value_runs"] += 1
+            case = {"splitter": G.show(t), "names": list(G.FIELDS), "values": {G.FIELDS[f]: repr(v) for f, v in values.items()},
+                    "value_case": {"tree": t, "values": {str(f): repr(v) for f, v in values.items()}, "names": q % 2}}
+            exp = [[values[f][job[f]] if f in job else G.CONST[f] for f in range(7)] for job in e[0]]
+            bad = None
+            if r["out"] is None:
+                bad = "the split run failed: %s" % r["exc"]
+            elif len(r["out"]) != len(exp):
+                bad = "number of jobs"
+            else:
+                for j, (o, x) in enumerate(zip(r["out"], exp)):
+                    for f in range(7):
+                        if not G.same_value(o[f], x[f]):
+                            bad = bad or "job %d received %r for field %s instead of %r" % (j, o[f], G.FIELDS[f], x[f])
+            if bad:
+                fails.append(Failure(case=case, observed={"per_job_inputs": repr(r["out"])[:1500], "exc": r["exc"]},
+                                     expected=repr(exp)[:1500], kind="spec",
+                                     note="a job did not receive exactly the selected element of a split field (element values "
+                                          "such as None, falsy values, containers, repeated elements): " + bad.split(" received ")[0]))
+    finally:
+        G.use_names(0)
+    return fails
 
 
 def strip(t):
@@ -312,6 +364,19 @@ def expected(ctx, m, kind):
 
 def replay(ctx, payload):
     c = payload["case"]
+    if "value_case" in c:
+        import ast
+        vc = c["value_case"]
+        G.use_names(vc["names"])
+        t = G.from_json(vc["tree"])
+        values = {int(f): ast.literal_eval(v) for f, v in vc["values"].items()}
+        r = G.run_e2e_values(t, values)
+        print("splitter:", G.show(t), "values:", {G.FIELDS[f]: v for f, v in values.items()})
+        print("implementation, per-job inputs:", r["out"], r["exc"] or "")
+        e = G.py_expand(t, [[len(values.get(f, [0]))] for f in range(max(values) + 1)])
+        print("reference:", [[values[f][job[f]] if f in job else G.CONST[f] for f in range(7)] for job in e[0]])
+        G.use_names(0)
+        return
     t = G.from_json(c["tree"])
     shapes = c["shapes"]
     print("splitter:", G.show(t), "shapes:", shapes, "level:", c.get("level", "state"))
